@@ -95,6 +95,8 @@ class G:
                 v = self.rng.gauss(0, scale)
             self.env[name] = v
             return v
+        if name not in self.env:
+            raise Reject('witness lacks input %s' % name)
         v = float(self.env[name])
         if (lo is not None and v < lo) or (hi is not None and v > hi):
             raise Reject(name)
@@ -127,6 +129,8 @@ class G:
             for nm, x in zip(names, v):
                 self.env[nm] = x
             return v
+        if any(nm not in self.env for nm in names):
+            raise Reject('witness lacks input %s' % name)
         v = [float(self.env[nm]) for nm in names]
         nn = math.sqrt(sum(x * x for x in v))
         if abs(nn - 1) > 1e-6:
